@@ -53,12 +53,12 @@ def props_for(patch, own):
     return props
 
 
-def silent(kid, tier):
+def silent(kid, tier, own=False):
     d = os.path.join(V, 'kept', kid)
     meta = json.load(open(os.path.join(d, 'meta.json')))
     res = {}
     with Worktree(os.path.join(d, 'patch.diff')) as wt:
-        for prop in props_for(os.path.join(d, 'patch.diff'), meta['property']):
+        for prop in ([meta['property']] if own else props_for(os.path.join(d, 'patch.diff'), meta['property'])):
             t0 = time.time()
             r = sh([os.path.join(V, 'check'), prop, '--tier', tier, '--no-evidence'], env=dict(os.environ, VERIF_REPO=wt))
             keys = [l.split('witness_key=')[1].split()[0] for l in r.stdout.splitlines() if 'witness_key=' in l and l.startswith('  clause=')]
@@ -72,6 +72,7 @@ def main():
     ap.add_argument('mode', choices=['confirm', 'silent'])
     ap.add_argument('targets', nargs='+')
     ap.add_argument('--tier', default='quick')
+    ap.add_argument('--own', action='store_true', help="silent: only the check of the change's own property")
     a = ap.parse_args()
     if a.mode == 'confirm':
         for d in a.targets:
@@ -82,12 +83,12 @@ def main():
         ids = sorted(x for x in os.listdir(os.path.join(V, 'kept')) if os.path.exists(os.path.join(V, 'kept', x, 'meta.json')))
     bad = 0
     for kid in ids:
-        r = silent(kid, a.tier)
+        r = silent(kid, a.tier, a.own)
         quiet = all(x['rc'] == 0 for x in r.values())
         bad += not quiet
         mp = os.path.join(V, 'kept', kid, 'meta.json')
         meta = json.load(open(mp))
-        meta['checks_run'] = {p: {'rc': x['rc'], 'keys': x['keys'], 'tier': a.tier} for p, x in r.items()}
+        meta.setdefault('checks_run', {}).update({p: {'rc': x['rc'], 'keys': x['keys'], 'tier': a.tier} for p, x in r.items()})
         json.dump(meta, open(mp, 'w'), indent=1)
         print(('SILENT ' if quiet else 'ALARM  ') + kid + ' ' + json.dumps(r))
         sys.stdout.flush()
